@@ -54,7 +54,7 @@ def valid_base(rng):
         base = "f.log"
     elif k == "text":
         nt = rng.choice((1, 1, 1, 2, 0, 6, 8))
-        p = world.TextLogParams(n_msgs=rng.randint(1, 12), src_letter=b"F", cont_p=0.3, notation=nt, frac_digits=3)
+        p = world.TextLogParams(n_msgs=rng.choice((rng.randint(1, 12), rng.randint(1, 12), 400)), src_letter=b"F", cont_p=0.3, notation=nt, frac_digits=3)
         content, _, _ = world.gen_text_log(rng, p)
         base = "f.log"
     elif k == "utmp":
@@ -298,6 +298,8 @@ def inject(rng, name, stored, content=None, cont=None):
             return name, data, d
     if f == "truncate":
         at = offset_class(rng, n)
+        if rng.random() < 0.1:
+            at = min(n, rng.choice((8095, 8096, 8097, 65536)))
         return name, stored[:at], {"fault": f, "at": at, "of": n}
     if f == "flip":
         at = offset_class(rng, n)
@@ -324,7 +326,8 @@ def inject(rng, name, stored, content=None, cont=None):
             return name, bytes(b), {"fault": f, "at": at, "len": ln, "of": n}
         return name, bytes(b), {"fault": f, "of": n}
     if f == "random_bytes":
-        ln = rng.choice((0, 1, 5, 6, 7, 63, 64, 65, 200, 4096, 70000))
+        # (sizes incl. the edges of the reader's size classes: 8096 is where the block-zero thresholds change, 65536 the default block)
+        ln = rng.choice((0, 1, 5, 6, 7, 63, 64, 65, 200, 4096, 70000, 8095, 8096, 8097, 65535, 65536, 65537))
         style = rng.randrange(3)
         if style == 0:
             data = bytes(rng.getrandbits(8) for _ in range(min(ln, 5000))) * (1 if ln <= 5000 else ln // 5000)
